@@ -42,6 +42,41 @@ def planDumpX (provs : List PSpec) (ret : Nat) : String :=
     let retS := if rp.isArg then s!"a{rp.node}:{(p.g.nodes.getD rp.node default).ty}" else s!"v{rp.node}.{rp.group}"
     s!"OK async={hasAsyncNodes p.g} err={p.b.isErr} args={sigArgs p} main=[{thr p.parent}] go=[{" | ".intercalate (p.chains.map thr)}] ret={retS}"
 
+/-! ### end-to-end form: what `harness/extract` recovers from the emitted `*_band.go` text -/
+
+/-- declaration-level identity of a value: argument by type key, provider result by declaration index and
+    result group, field read by field name -/
+def valueIdE (g : Graph) (b : BuildOut) (pidx : Nat) : String :=
+  let p := b.params.getD pidx default
+  let nd := g.nodes.getD p.node default
+  if nd.isArg then s!"A{nd.ty}"
+  else
+    let spec := g.provs.getD nd.prov default
+    if spec.kind == 2 then s!"F.{spec.fieldName}" else s!"P{spec.decl}.{p.group}"
+
+/-- one emitted statement: waits (`w` plain receive, `W` select with ctx.Done), call, error check (`!`), closes (`c`) -/
+def dumpCallE (g : Graph) (b : BuildOut) (ctxAware : Bool) (n : Nat) : String :=
+  let nd := g.nodes.getD n default
+  let spec := g.provs.getD nd.prov default
+  let argS := (b.nodeArgs.getD n []).map (fun a =>
+    let p := b.params.getD a.param default
+    let waited := a.isWait && p.withChan && spec.kind != 2
+    s!"{valueIdE g b a.param}{if waited then (if ctxAware then "W" else "w") else ""}")
+  let retS := (b.nodeRets.getD n []).map (fun r =>
+    let p := b.params.getD r default
+    s!"{if p.refs == 0 then "_" else "r"}{if p.withChan then "c" else ""}")
+  let head := if spec.kind == 2 then s!"F.{spec.fieldName}" else s!"P{spec.decl}"
+  s!"{head}({",".intercalate argS})->({",".intercalate retS}){if spec.isErr then "!" else ""}"
+
+def planDumpE (provs : List PSpec) (ret : Nat) : String :=
+  match plan provs ret with
+  | .error e => s!"ERR {errStr e}"
+  | .ok p =>
+    let hasCtx := hasAsyncNodes p.g
+    let thr := fun (ctxAware : Bool) (l : List Nat) => " ".intercalate (l.map (dumpCallE p.g p.b ctxAware))
+    let eg := if p.chains.isEmpty then "none" else if p.b.isErr then "check" else "ignore"
+    s!"OK err={p.b.isErr} args={sigArgs p} main=[{thr (hasCtx && p.b.isErr) p.parent}] go=[{" | ".intercalate (p.chains.map (thr hasCtx))}] ret={valueIdE p.g p.b p.b.retParam} egwait={eg}"
+
 end KV
 
 namespace VP
